@@ -16,6 +16,7 @@ import warnings
 
 import numpy as np
 
+from vf import bigcases
 from vf import core
 from vf.oracles import most
 
@@ -300,3 +301,4 @@ def run(ctx):
     from vf import histories
 
     histories.run(ctx, __name__, 2 if ctx.tier == "quick" else 3)
+    bigcases.run(ctx, "C09")
